@@ -20,6 +20,7 @@ type FuncReport struct {
 	Notes     []string `json:"notes,omitempty"`
 	Assumes   []string `json:"assumes,omitempty"`
 	Errors    []string `json:"errors,omitempty"`
+	Observe   map[string]string `json:"-"`
 	NumObs    int      `json:"obligations"`
 	obs       []*Obligation
 	ToolError bool `json:"tool_error,omitempty"`
@@ -111,6 +112,8 @@ func (p *Program) VerifyFunc(ct *Contract) *FuncReport {
 		return rep
 	}
 	rep.File = p.pos(fi.Decl)
+	rep.Observe = ct.Observe
+	p.topPkgName, p.topPkgPath = ct.PkgName, ct.PkgPath
 	modes := []string{"seq"}
 	if ct.Mode == "conc" {
 		modes = []string{"conc"}
